@@ -404,11 +404,59 @@ def check_faces(c):
             warnings.simplefilter('ignore')
             g2 = teneva.func_get(pts, A, a, b, z=-777.0)
         res.check(np.abs(g2 - want).max() <= tol, 'faces.tt', c, lambda: 'func_get on faces / corners: %s, exact %s' % (g2.tolist(), want.tolist()))
+    # the dense integration accepts symmetric boxes only: a box that is ALMOST symmetric (relative asymmetry 1e-6 ... 1e-9) is either rejected
+    # or integrated correctly, never silently integrated as if it were symmetric; the TT routine integrates any box
+    exact_int = float(np.prod([(b[k] - a[k]) + 0.5 * (b[k] ** 2 - a[k] ** 2) / 2 + 0.25 * (b[k] ** 3 - a[k] ** 3) / 3 for k in range(d)]))
+    res.ev()
+    try:
+        with warnings.catch_warnings():
+            warnings.simplefilter('ignore')
+            sv = teneva.func_sum_full(Ad, a, b)
+        res.check(abs(sv - exact_int) <= 1e-11 * max(1.0, abs(exact_int)), 'faces.sum_full', c,
+                  lambda: 'func_sum_full accepted the box and returned %r, exact integral %r' % (sv, exact_int))
+    except ValueError:
+        res.ok('faces.sum_full')
+    if A is not None:
+        with warnings.catch_warnings():
+            warnings.simplefilter('ignore')
+            st = teneva.func_sum(A, a, b)
+        res.check(abs(st - exact_int) <= 1e-11 * max(1.0, abs(exact_int)), 'faces.sum_tt', c, lambda: 'func_sum %r, exact integral %r' % (st, exact_int))
     res.nt((tuple(a), tuple(b)))
     return res
 
 
-CHECKERS = {'faces': check_faces, 'mono': check_mono, 'linear': check_linear}
+def check_shared(c):
+    """Value tensors whose equal cores are ONE ndarray object (a sum of products on equal grids): the same coefficients as for separate copies."""
+    res = Res()
+    d, n = c['d'], c['n']
+    x = nodes(-1.0, 1.0, n)
+    v = 1.0 + 0.5 * x - 0.25 * x ** 2
+    G0 = np.stack([v, np.ones(n)], axis=1).reshape(1, n, 2)
+    Gm = np.zeros((2, n, 2))
+    Gm[0, :, 0], Gm[1, :, 1], Gm[0, :, 1] = 1.0, 1.0, v
+    Gd = np.stack([np.ones(n), v], axis=0).reshape(2, n, 1)
+    for kind in ('cheb', 'sin'):
+        res.ev()
+        shared = [G0] + [Gm] * (d - 2) + [Gd]
+        copies = [G0.copy()] + [Gm.copy() for _ in range(d - 2)] + [Gd.copy()]
+        b0 = ref.core_bytes(shared)
+        with warnings.catch_warnings():
+            warnings.simplefilter('ignore')
+            A1 = teneva.func_int(shared, kind)
+            A2 = teneva.func_int(copies, kind)
+        res.check(ref.core_bytes(A1) == ref.core_bytes(A2) and ref.core_bytes(shared) == b0 and len({id(G) for G in A1}) == d, 'shared.func_int', dict(c, kind=kind),
+                  'func_int of a train with one core object at several positions differs from the same values in separate arrays (or its output cores are one object)')
+        if kind == 'cheb':
+            with warnings.catch_warnings():
+                warnings.simplefilter('ignore')
+                Z1 = teneva.func_gets(A1, n)
+            res.check(np.abs(ref.dense(Z1) - ref.dense(copies)).max() <= 1e-12 * (1 + np.abs(ref.dense(copies)).max()), 'shared.roundtrip', dict(c, kind=kind),
+                      'func_gets(func_int(Y)) does not return Y for a train with shared core objects')
+    res.nt((d, n))
+    return res
+
+
+CHECKERS = {'shared': check_shared, 'faces': check_faces, 'mono': check_mono, 'linear': check_linear}
 
 
 def strata(tier, seed):
@@ -439,7 +487,10 @@ def strata(tier, seed):
             cs.append(dict(shape=[n, 4], box=box * 2, ms=[3], few=True, seed=seed))
     dec = [-3.0, -1.1, -0.7, -0.3, 0.0, 0.1, 0.2, 0.3, 0.6, 0.7, 0.9, 1.1, 2.3]
     pairs = [(x, y) for x in dec for y in dec if x < y]
-    fc = [dict(a=[x], b=[y]) for x, y in pairs] + [dict(a=[x, pairs[(j * 7 + 3) % len(pairs)][0]], b=[y, pairs[(j * 7 + 3) % len(pairs)][1]]) for j, (x, y) in enumerate(pairs)]
+    near = [(-1.0, 1.000004), (-1.0, 1.0 + 1e-9), (-300.0, 300.002), (-2.5, 2.5 * (1 - 3e-7)), (-1.0, 1.0), (-0.5, 0.5)]
+    sh = [dict(d=d_, n=n_) for d_ in (3, 4, 5) for n_ in (3, 4, 6)]
+    yield Stratum('value tensors with one core object at several positions', sh, 'shared', seq=True, size=len(sh), chunk=4, bounds={'d': [3, 5]})
+    fc = [dict(a=[x], b=[y]) for x, y in near] + [dict(a=[x, -1.0], b=[y, 1.0]) for x, y in near] + [dict(a=[x], b=[y]) for x, y in pairs] + [dict(a=[x, pairs[(j * 7 + 3) % len(pairs)][0]], b=[y, pairs[(j * 7 + 3) % len(pairs)][1]]) for j, (x, y) in enumerate(pairs)]
     yield Stratum('faces and corners of every box of a decimal lattice', fc, 'faces', seq=True, size=len(fc), chunk=8, bounds={'bounds': dec})
     yield Stratum('all monomials', cs, 'mono', size=len(cs), chunk=4, bounds={'d': [1, 3], 'n': [2, top]})
     ls = [dict(n=n, box=bk, d=d, rank=rk, ms=[2, 3, 7], seed=seed)
